@@ -149,6 +149,15 @@ def norm_spdx(text):
     return re.sub(r"Created: \S+", "Created: X", t)
 
 
+def _unordered(line):
+    """The statement compares reports *up to the ordering of entries*: the lines of the human-readable formats are compared as a multiset,
+    and the comma-separated list of a summary line ('* Used licenses: A, B') as a set."""
+    head, sep, rest = line.partition(": ")
+    if line.startswith("* ") and sep and ", " in rest:
+        return head + sep + ", ".join(sorted(rest.split(", ")))
+    return line
+
+
 def observe(root, name, argv_root=None, cwd=None, pool=None, listing=None, multiprocessing=False, extra=()):
     """Run lint --json and spdx under the given environment; returns the pair
     of normalised observations."""
@@ -175,7 +184,7 @@ def observe(root, name, argv_root=None, cwd=None, pool=None, listing=None, multi
             texts = [run_cli([*argv_root, *mp_flag, *extra, "lint", *fmt], cwd=cwd) for fmt in ([], ["--lines"])]
             if any(t.exc for t in texts):
                 return ("failed", texts[0].brief(), texts[1].brief())
-            plain = "\n=====\n".join(t.stdout for t in texts).replace(root_abs, "ROOT")
+            plain = "\n".join(sorted(_unordered(line) for t in texts for line in t.stdout.replace(root_abs, "ROOT").split("\n")))
     if lint.exc or lint.exit_code not in (0, 1) or spdx.exc or spdx.exit_code != 0:
         return ("failed", lint.brief(), spdx.brief())
     return (norm_lint(lint.stdout, cwd, root_abs), norm_spdx(spdx.stdout), plain)
